@@ -153,6 +153,10 @@ def run(ctx: C.Ctx):
         # part C: the same class models reached through enclosing classes, over histories (c08_nest.py)
         from harness.props import c08_nest
         c08_nest.run(ctx, nest_rng)
+        # part D: the same class models when the first use of the class fails (a forward-referenced class is defined late) and is
+        # repeated (c08_late.py); its own stream of the seed, so the streams above are what they were
+        from harness.props import c08_late
+        c08_late.run(ctx, random.Random(f'{ctx.prop_id}:{ctx.seed}:late'))
 
 
 def _run_strings(ctx: C.Ctx):
